@@ -637,6 +637,15 @@ func (g *G) rangeStmt() {
 		g.line("%s := 0", acc)
 		k := &Var{Name: g.name("k"), T: s.T.Key, RO: true}
 		v := &Var{Name: g.name("x"), T: s.T.Elem, RO: true}
+		if !strings.Contains(name, ".") && g.r.Chance(1, 4) {
+			// a loop variable may have the name of the variable that is ranged over: the range expression is
+			// evaluated before the loop variable exists
+			if g.r.Bool() {
+				v.Name = name
+			} else {
+				k.Name = name
+			}
+		}
 		switch g.r.Intn(3) {
 		case 0:
 			g.line("for %s, %s := range %s {", k.Name, v.Name, name)
@@ -682,6 +691,20 @@ func (g *G) rangeStmt() {
 			g.line("_ = %s", c.Name)
 		}
 	default:
+		if !strings.Contains(name, ".") && g.r.Chance(1, 6) {
+			// (the same for a slice: the element variable takes the slice's name)
+			acc := g.name("acc")
+			g.line("%s := 0", acc)
+			e := &Var{Name: name, T: s.T.Elem}
+			g.line("for i, %s := range %s {", name, name)
+			g.ind++
+			g.line("%s += (i + 1) * (%s & 1023)", acc, g.hashOf(e))
+			g.ind--
+			g.line("}")
+			g.use("fmt")
+			g.line("fmt.Println(%q, %s, len(%s))", g.name("q"), acc, name)
+			return
+		}
 		i := &Var{Name: g.name("i"), T: TInt, RO: true, Small: true}
 		e := &Var{Name: g.name("e"), T: s.T.Elem, RO: true}
 		lock := *s
